@@ -204,7 +204,7 @@ func (e *Engine) Run(h *Harness) (*HarnessResult, error) {
 	started := 0
 	stop := false
 
-	worker := func() {
+	worker := func(wi int) {
 		solver, err := NewSolver(e.SolverName, e.SolverTimeout)
 		if err != nil {
 			mu.Lock()
@@ -249,8 +249,18 @@ func (e *Engine) Run(h *Harness) (*HarnessResult, error) {
 				mu.Unlock()
 				return
 			}
-			prefix := stack[len(stack)-1]
-			stack = stack[:len(stack)-1]
+			var prefix []int
+			if wi%4 == 3 && len(stack) > 1 {
+				// every fourth worker takes the OLDEST open alternative (a shallow fork, i.e. a
+				// different region of the input space) instead of the newest: the set of paths
+				// explored is the same, but under a wall-clock budget the regions reached first
+				// are spread out instead of all lying next to the first path
+				prefix = stack[0]
+				stack = stack[1:]
+			} else {
+				prefix = stack[len(stack)-1]
+				stack = stack[:len(stack)-1]
+			}
 			active++
 			started++
 			mu.Unlock()
@@ -279,7 +289,7 @@ func (e *Engine) Run(h *Harness) (*HarnessResult, error) {
 	}
 	for i := 0; i < n; i++ {
 		wg.Add(1)
-		go func() { defer wg.Done(); worker() }()
+		go func(wi int) { defer wg.Done(); worker(wi) }(i)
 	}
 	wg.Wait()
 	hr.WallS = time.Since(t0).Seconds()
